@@ -49,7 +49,7 @@ const (
 // ---- scripts ----
 
 type op struct {
-	K string `json:"k"` // bindw bindr bind unbind traffic close
+	K string `json:"k"` // bindw bindr bind unbind traffic rtcp close
 	X uint32 `json:"x,omitempty"`
 }
 
@@ -65,6 +65,8 @@ func (o op) coq() string {
 		return cq.C("OUnbind", cq.ZU(uint64(o.X)))
 	case "traffic":
 		return cq.C("OTraffic", cq.ZU(uint64(o.X)))
+	case "rtcp":
+		return cq.C("ORtcp", cq.ZU(uint64(o.X)))
 	}
 
 	return "OClose"
@@ -394,13 +396,14 @@ func (r *runner) do(o op) {
 			_, _ = w.Write(&p.Header, p.Payload, interceptor.Attributes{})
 			r.inSync.Add(-1)
 		}
+	case "rtcp":
 		// incoming RTCP about the stream through the reader returned by BindRTCPReader (if bound):
-		// a sender report, a NACK for the packet just sent (nack responder: resend goroutine) and a
+		// a sender report, a NACK for the packet sent last (nack responder: resend goroutine) and a
 		// transport-wide feedback (gcc: hand-off to the delay controller goroutines)
 		r.mu.Lock()
 		rrd := r.rtcpRd
 		if rrd != nil {
-			r.rtcpIn = rtcpAbout(o.X, p.SequenceNumber)
+			r.rtcpIn = rtcpAbout(o.X, r.seq[o.X]-2)
 		}
 		r.mu.Unlock()
 		if rrd != nil {
@@ -537,12 +540,12 @@ func runScript(sc *script) {
 		case "close":
 			closeRet[i] = tRet
 			time.Sleep(closeWin)
-		case "traffic", "bindw":
+		case "traffic", "bindw", "rtcp":
 			time.Sleep(tick)
 			// a later call can (re)start emissions about a stream that is unbound: give them the same
 			// window as right after the Unbind
 			for _, u := range unbinds {
-				if !u.open || (o.K == "traffic" && u.x != o.X) {
+				if !u.open || (o.K != "bindw" && u.x != o.X) {
 					continue
 				}
 				deadline := time.Now().Add(unbindWin)
@@ -718,6 +721,7 @@ func runConcurrent(k *kind, delayUs int) *concResult {
 			}()
 			for !stop.Load() {
 				r.do(op{K: "traffic", X: x})
+				r.do(op{K: "rtcp", X: x})
 			}
 		}(x)
 	}
@@ -850,7 +854,8 @@ func worker(wg *sync.WaitGroup, ch chan int, scs []*script) {
 func alphabet(nSSRC int) []op {
 	a := []op{{K: "bindw"}, {K: "bindr"}, {K: "close"}}
 	for x := 1; x <= nSSRC; x++ {
-		a = append(a, op{K: "bind", X: uint32(x)}, op{K: "unbind", X: uint32(x)}, op{K: "traffic", X: uint32(x)})
+		a = append(a, op{K: "bind", X: uint32(x)}, op{K: "unbind", X: uint32(x)}, op{K: "traffic", X: uint32(x)},
+			op{K: "rtcp", X: uint32(x)})
 	}
 
 	return a
@@ -875,14 +880,22 @@ func allSeqs(a []op, maxLen int) [][]op {
 }
 
 // valid: traffic on an SSRC needs a reader/writer, i.e. an earlier Bind of that SSRC
-// (traffic through the handle of a stream that was unbound meanwhile is kept).
+// (traffic through the handle of a stream that was unbound meanwhile is kept); incoming
+// RTCP needs the reader returned by an earlier BindRTCPReader.
 func valid(ops []op) bool {
 	bound := map[uint32]bool{}
+	reader := false
 	for _, o := range ops {
 		if o.K == "bind" {
 			bound[o.X] = true
 		}
+		if o.K == "bindr" {
+			reader = true
+		}
 		if o.K == "traffic" && !bound[o.X] {
+			return false
+		}
+		if o.K == "rtcp" && !reader {
 			return false
 		}
 	}
@@ -948,7 +961,7 @@ func implFailures(scs []*script) []cq.ImplFailure {
 			case 3:
 				add(name+"-"+ops[i].K+"-panic", fmt.Sprintf("step %d (%s) panicked: %v", i, ops[i].K, sc.Notes), sc)
 			case 1:
-				if ops[i].K != "traffic" {
+				if ops[i].K != "traffic" && ops[i].K != "rtcp" {
 					add(name+"-"+ops[i].K+"-blocks", fmt.Sprintf("step %d (%s %d) returned only after a later call", i, ops[i].K, ops[i].X), sc)
 				}
 			}
@@ -984,8 +997,10 @@ func main() {
 		switch g.Special {
 		case "gate":
 			replayGate = g.Iid
+			add(g.Iid, []op{{K: "bindw"}}, 0, "replay") // keeps the case set non-empty
 		case "concurrent-close":
 			replayConc = g.Iid
+			add(g.Iid, []op{{K: "bindw"}}, 0, "replay")
 		default:
 			var sc script
 			cq.LoadReplay(o.Replay, &sc)
@@ -1008,7 +1023,7 @@ func main() {
 		}
 		short := append(allSeqs(alphabet(2), depth), allSeqs(alphabet(1), depth+1)...)
 		suffix := allSeqs(alphabet(2), 2)
-		warm := []op{{K: "bindw"}, {K: "bind", X: 1}, {K: "traffic", X: 1}}
+		warm := []op{{K: "bindw"}, {K: "bindr"}, {K: "bind", X: 1}, {K: "traffic", X: 1}}
 		full := alphabet(3)
 		nRand := o.Scale(120, 1500)
 		for _, k := range kinds {
